@@ -467,7 +467,8 @@ class Part(object):
 
     def _time_interpolator(self, quarter=False, inv=False, musical_beat=False):
         if len(self._points) < 2:
-            return lambda x: np.zeros(len(x))
+            # (also for a scalar argument, as the interpolators below accept)
+            return lambda x: np.zeros(np.shape(x))
 
         keypoints = defaultdict(lambda: [None, None])
         _ = keypoints[self.first_point.t]
